@@ -481,6 +481,7 @@ func checkC18(w *World, r *Report) {
 	c18SourceAndHash(w, r, byFn)
 	c18Events(w, r, touches)
 	c18Singleton(w, r, byFn, touches)
+	c18EmptyMeansEmpty(w, r)
 	c18StateNotACopy(w, r, byFn)
 }
 
@@ -1237,6 +1238,7 @@ func c18Events(w *World, r *Report, touches func(*ssa.Function) bool) {
 		for _, wn := range want {
 			var handler *ssa.Function
 			decided := true
+			nameFiltered := ""
 			b, pred := fn.Blocks[0], (*ssa.BasicBlock)(nil)
 			for steps := 0; steps < 64 && b != nil && handler == nil; steps++ {
 				for _, in := range b.Instrs {
@@ -1254,6 +1256,37 @@ func c18Events(w *World, r *Report, touches func(*ssa.Function) bool) {
 					// phis are evaluated relative to the edge we came in on
 					val, ok := eval(t.Cond, predOf(t.Cond, b, pred), wn.op)
 					if !ok {
+						// a filter on the file's name: harmless exactly if the initial scan of the directory
+						// applies the same predicate (what is never loaded need not be tracked)
+						if pc := nameFilterPredicate(w, fn, t.Cond); pc != nil {
+							mirrored := false
+							dreach, _ := w.CG().Reachable([]*ssa.Function{fn}, func(g *ssa.Function) bool { return !w.inModule(g) })
+							for _, g := range w.Funcs {
+								if fnPkgPath(g) != fnPkgPath(fn) || g == fn || g.Blocks == nil || w.isMockFn(g) {
+									continue
+								}
+								if _, inDispatch := dreach[g]; inDispatch {
+									continue
+								}
+								for _, gc := range callsIn(g) {
+									if gc.Common().StaticCallee() == pc {
+										mirrored = true
+									}
+								}
+							}
+							if !mirrored {
+								nameFiltered = pc.Name()
+								b = nil
+								break
+							}
+							// take the branch on which the event is processed
+							nb := b.Succs[0]
+							if !reachesHandler(w, b.Succs[0], touches) {
+								nb = b.Succs[1]
+							}
+							pred, b = b, nb
+							continue
+						}
 						decided = false
 						b = nil
 						break
@@ -1272,6 +1305,10 @@ func c18Events(w *World, r *Report, touches func(*ssa.Function) bool) {
 			}
 			if !decided {
 				r.Undecided(ri, "event dispatch of "+w.FnName(fn)+" is not a decision over fsnotify operations only")
+				continue
+			}
+			if nameFiltered != "" {
+				r.Ob(ri, w.FnName(fn)+"|"+wn.name, fn.Pos(), false, fmt.Sprintf("%s events are discarded by a filter on the file's name (%s) that the initial scan of the directory does not apply: a file of that kind is loaded at start but never updated or unloaded afterwards", wn.name, nameFiltered))
 				continue
 			}
 			ok := false
@@ -1460,5 +1497,124 @@ func c18StateNotACopy(w *World, r *Report, byFn map[*ssa.Function][]provSite) {
 	}
 	if n == 0 {
 		r.Undecided(ri, "no call handing a state map to the bookkeeping found")
+	}
+}
+
+
+// nameFilterPredicate: cond is (the negation of) a call of a module predicate applied to the Name
+// of the fsnotify event that fn received; returns that predicate.
+func nameFilterPredicate(w *World, fn *ssa.Function, cond ssa.Value) *ssa.Function {
+	var evt *ssa.Parameter
+	for _, pa := range fn.Params {
+		if strings.HasSuffix(pa.Type().String(), "fsnotify.Event") {
+			evt = pa
+		}
+	}
+	if evt == nil {
+		return nil
+	}
+	if u, ok := cond.(*ssa.UnOp); ok && u.Op == token.NOT {
+		cond = u.X
+	}
+	c, ok := cond.(*ssa.Call)
+	if !ok {
+		return nil
+	}
+	callee := c.Common().StaticCallee()
+	if callee == nil || !w.inModule(callee) {
+		return nil
+	}
+	for _, a := range c.Common().Args {
+		if dependsOn(w, a, func(x ssa.Value) bool {
+			root, p := accessPath(x)
+			return (root == ssa.Value(evt) || bindParam(root) == ssa.Value(evt)) && len(p) == 1 && p[0] == "Name"
+		}) {
+			return callee
+		}
+		// the event is spilled when its address is taken (evt.String())
+		if dependsOn(w, a, func(x ssa.Value) bool {
+			if fa, ok := x.(*ssa.FieldAddr); ok {
+				if f := fieldOf(fa.X.Type(), fa.Field); f != nil && f.Name() == "Name" && strings.HasSuffix(derefType(fa.X.Type()).String(), "fsnotify.Event") {
+					return true
+				}
+			}
+			return false
+		}) {
+			return callee
+		}
+	}
+	return nil
+}
+
+// reachesHandler: from block b a call of a handler that touches the processor is reachable.
+func reachesHandler(w *World, b *ssa.BasicBlock, touches func(*ssa.Function) bool) bool {
+	for x := range reach(b, nil) {
+		for _, in := range x.Instrs {
+			if c, ok := in.(*ssa.Call); ok {
+				if f := c.Common().StaticCallee(); f != nil && w.inModule(f) && touches(f) {
+					return true
+				}
+			}
+		}
+	}
+	return false
+}
+
+// c18EmptyMeansEmpty (C18.10): the providers unload a source whose content is reported as "empty".
+// That report must mean what it says - nothing could be read (end of input) - and must not be
+// produced for a document that was read and then found wanting (a truncated file that ends after
+// "rules:"): such content is malformed, and a malformed version leaves the loaded one in place.
+func c18EmptyMeansEmpty(w *World, r *Report) {
+	ri := r.Rule("C18.10", 2, "the 'empty rule set' sentinel is produced only at the end of input (io.EOF): content that was read but is malformed or incomplete is an error, not an emptiness")
+	g, _ := w.Obj("internal/rules/config", "ErrEmptyRuleSet").(*types.Var)
+	if g == nil {
+		r.Undecided(ri, "ErrEmptyRuleSet not found")
+		return
+	}
+	isEOFTest := func(f Fact) bool {
+		if f.Kind == FTrue {
+			if c, _ := resultOfCall(f.V); c != nil && callName(c.Common()) == "errors.Is" && len(c.Common().Args) == 2 {
+				if u, ok := c.Common().Args[1].(*ssa.UnOp); ok {
+					if gg, ok := u.X.(*ssa.Global); ok && gg.Name() == "EOF" && gg.Pkg != nil && gg.Pkg.Pkg.Path() == "io" {
+						return true
+					}
+				}
+			}
+		}
+		if f.Kind == FCmp && f.Op == token.EQL {
+			for _, v := range []ssa.Value{f.X, f.Y} {
+				if u, ok := v.(*ssa.UnOp); ok {
+					if gg, ok := u.X.(*ssa.Global); ok && gg.Name() == "EOF" && gg.Pkg != nil && gg.Pkg.Pkg.Path() == "io" {
+						return true
+					}
+				}
+			}
+		}
+		if l, kd := lenFact(f); l != nil && kd == "empty" {
+			if sl, ok := l.Type().Underlying().(*types.Slice); ok {
+				if b, ok := sl.Elem().Underlying().(*types.Basic); ok && b.Kind() == types.Uint8 {
+					return true // no bytes at all
+				}
+			}
+			if isString(l.Type()) {
+				return true
+			}
+		}
+		return false
+	}
+	n := 0
+	for _, u := range globalUses(w, g) {
+		fn := u.Parent()
+		if fn == nil || w.isMockFn(fn) || usedOnlyAsComparisonTarget(u) {
+			continue
+		}
+		n++
+		r.Analysed(w.FnName(fn))
+		blk := u.Block()
+		ok := onlyVia(fn, blk, isEOFTest)
+		r.Ob(ri, fmt.Sprintf("%s|empty-only-at-eof#%d", w.FnName(fn), n), u.Pos(), ok, "the 'empty rule set' sentinel can be produced for content that was read (not only at the end of input): a truncated or incomplete version of a source unloads the loaded rule set instead of being rejected")
+	}
+	if n == 0 {
+		r.Undecided(ri, "the 'empty rule set' sentinel is never produced")
 	}
 }
